@@ -14,7 +14,7 @@ package internal
 //@              abs(result - real(width)*real(current)/real(total)) <= real(width)/pow2(50)
 
 //@ func PercentageRound
-//@   props    C08
+//@   props    C08 C20
 //@   pure
 //@   requires width <= 1<<31
 //@   ensures  integral: isInt(result)
